@@ -424,7 +424,7 @@ impl GenChooser {
                     continue;
                 }
                 let last = r.last_poll.clone().unwrap_or_default();
-                if last == "none" || last == "panic" {
+                if last == "none" || last == "panic" || last == "drained" {
                     // drop what is left in random order, poll once more sometimes, then stop
                     if !r.live.is_empty() {
                         let f = *rng.pick(&r.live);
@@ -473,6 +473,14 @@ impl GenChooser {
                 } else {
                     // got an item: poll on, or drop something first
                     self.useless = 0;
+                    if self.burst && rng.chance(50) {
+                        // tight consumer loop: drop what is held, then poll-and-drop until Pending / None
+                        for &f in &r.live {
+                            batch.push(Act::Drop { run: i, f });
+                        }
+                        batch.push(Act::Drain { run: i });
+                        continue;
+                    }
                     if !self.burst && !r.live.is_empty() && rng.chance(35) {
                         let f = *rng.pick(&r.live);
                         batch.push(Act::Drop { run: i, f });
@@ -542,6 +550,7 @@ struct Session {
     cfgs: Vec<RunCfg>,
     coop: bool,
     auto: u8,
+    shared: bool, // the run's InterruptibilityState is the case-wide one, handed over with reborrow()
     script: Option<Vec<Vec<Act>>>, // None = generate
 }
 
@@ -592,17 +601,23 @@ fn run_case(
     out.extend(seq_lines(&mut g, fails));
     #[cfg(feature = "intr")]
     out.push(ginfo_line(&g));
+    let n_fns = ops.iter().filter(|x| matches!(x, Op::Fn { .. })).count();
+    let mut shared_intr: Option<SharedIntr> = None;
     for s in sessions {
+        if s.shared && shared_intr.is_none() {
+            shared_intr = Some(SharedIntr::new(s.cfgs[0].strat));
+        }
+        let sh = if s.shared { shared_intr.as_mut() } else { None };
         match s.script {
             Some(script) => {
                 let mut it = script.into_iter();
-                session(&mut g, &s.cfgs, s.coop, s.auto, out, &mut |_v, _step| it.next());
+                session(&mut g, &s.cfgs, s.coop, s.auto, sh, out, &mut |_v, _step| it.next());
             }
             None => {
-                let burst = rng.chance(22);
+                let burst = rng.chance(if n_fns >= 60 { 60 } else { 22 });
                 let abort_at = if allow_abort && rng.chance(35) { Some(1 + rng.below(4) as usize) } else { None };
                 let mut ch = GenChooser { rng: Rng(rng.next() | 1), useless: 0, allow_abort, midpoll_intr: midpoll, steps: 0, burst, abort_at };
-                session(&mut g, &s.cfgs, s.coop, s.auto, out, &mut |v, step| ch.choose(v, step));
+                session(&mut g, &s.cfgs, s.coop, s.auto, sh, out, &mut |v, step| ch.choose(v, step));
             }
         }
     }
@@ -625,18 +640,50 @@ fn gen_main(seed: u64, count: usize, kinds: &str, maxn: usize) {
         let mut sessions = vec![];
         let hist = has("hist");
         let nsess = if hist { 2 + rng.below(3) as usize } else { 1 };
+        let mut prev_api: Option<String> = None;
+        // histories: sometimes all runs share ONE caller-owned InterruptibilityState (reborrow)
+        let case_shared: Option<Strat> = if hist && cfg!(feature = "intr") && rng.chance(30) {
+            Some(match rng.below(4) { 0 => Strat::Finish, 1 => Strat::PollN(rng.below(4)), 2 => Strat::PollN(1 + rng.below(8)), _ => Strat::Ignore })
+        } else {
+            None
+        };
         for _ in 0..nsess {
             let pick = rng.below(100);
             if has("pair") && pick < 50 {
                 let sa = has("stream") && rng.chance(30);
                 let sb = has("stream") && rng.chance(30);
                 let a = gen_runcfg(&mut rng, sa, true);
-                let b = gen_runcfg(&mut rng, sb, true);
-                sessions.push(Session { cfgs: vec![a, b], coop: rng.chance(50), auto: 0, script: None });
+                let mut b = gen_runcfg(&mut rng, sb, true);
+                if rng.chance(45) {
+                    // two runs of the same API family at once
+                    let keep = b.clone();
+                    b = RunCfg { api: a.api.clone(), ..keep };
+                    if !b.has_opts() {
+                        b.rev = false;
+                        b.strat = Strat::Non;
+                        b.incl = true;
+                    }
+                    if !b.api.contains("for_each_concurrent") {
+                        b.limit = None;
+                    }
+                }
+                sessions.push(Session { cfgs: vec![a, b], coop: rng.chance(50), auto: 0, shared: false, script: None });
             } else if has("stream") && (!has("run") || pick < 35) {
-                { let c = gen_runcfg(&mut rng, true, false); sessions.push(Session { cfgs: vec![c], coop: rng.chance(50), auto: 0, script: None }); }
+                { let c = gen_runcfg(&mut rng, true, false); sessions.push(Session { cfgs: vec![c], coop: rng.chance(50), auto: 0, shared: false, script: None }); }
             } else if has("run") {
-                { let c = gen_runcfg(&mut rng, false, false); let auto = if rng.chance(12) { 1 + rng.below(3) as u8 } else { 0 }; sessions.push(Session { cfgs: vec![c], coop: rng.chance(50), auto, script: None }); }
+                { let mut c = gen_runcfg(&mut rng, false, false);
+                  if hist {
+                      // histories often repeat the API of the previous run (same code path, leftover state)
+                      if let Some(pa) = &prev_api {
+                          if rng.chance(45) {
+                              let keep = c.clone();
+                              c = RunCfg { api: pa.clone(), ..keep };
+                              if !c.has_opts() { c.rev = false; c.strat = Strat::Non; c.incl = true; }
+                              if !c.api.contains("for_each_concurrent") { c.limit = None; }
+                          }
+                      }
+                      prev_api = Some(c.api.clone());
+                  } let auto = if rng.chance(12) { 1 + rng.below(3) as u8 } else { 0 }; let shared = case_shared.is_some() && c.has_opts(); if let (true, Some(st)) = (shared, case_shared) { c.strat = st; } sessions.push(Session { cfgs: vec![c], coop: rng.chance(50), auto, shared, script: None }); }
             }
         }
         let midpoll = has("midpoll");
@@ -693,7 +740,7 @@ fn replay_main(path: &str) {
                     fails = parse_csv(f);
                 }
             } else if l.starts_with("session") {
-                sessions.push(Session { cfgs: vec![], coop: l.contains("coop=1"), auto: l.split(' ').find_map(|t| t.strip_prefix("auto=")).and_then(|v| v.parse().ok()).unwrap_or(0), script: Some(vec![]) });
+                sessions.push(Session { cfgs: vec![], coop: l.contains("coop=1"), auto: l.split(' ').find_map(|t| t.strip_prefix("auto=")).and_then(|v| v.parse().ok()).unwrap_or(0), shared: l.contains("shared=1"), script: Some(vec![]) });
             } else if l.starts_with("run ") {
                 if let (Some(s), Some((_, cfg))) = (sessions.last_mut(), RunCfg::parse(l)) {
                     s.cfgs.push(cfg);
@@ -1005,7 +1052,7 @@ fn enum_main(maxn: usize, part: usize, parts: usize, streams: bool) {
                 let (g, built) = build(b);
                 out.push(built);
                 if let Some(mut g) = g {
-                    session(&mut g, std::slice::from_ref(cfg), (gi + ci) % 2 == 1, 0, &mut out, &mut |v, step| ch.choose(v, step));
+                    session(&mut g, std::slice::from_ref(cfg), (gi + ci) % 2 == 1, 0, None, &mut out, &mut |v, step| ch.choose(v, step));
                 }
                 out.push("end".into());
                 for l in out {
@@ -1151,8 +1198,18 @@ fn sweep_main(sizes: &str, stride: usize) {
         while k <= n {
             let api = apis[(k / stride.max(1)) % apis.len()].to_string();
             let cfg = RunCfg { api, rev: k % 2 == 0, limit: None, strat: Strat::PollN(k as u64), incl: k % 3 != 0, ord: (k % 6) as u8 };
-            sessions.push(Session { cfgs: vec![cfg], coop: true, auto: 1 + ((k / 7) % 3) as u8, script: Some(vec![vec![Act::Intr { run: 0 }], vec![Act::Poll { run: 0 }], vec![Act::Poll { run: 0 }], vec![Act::Abort { run: 0 }]]) });
+            sessions.push(Session { cfgs: vec![cfg], coop: true, auto: 1 + ((k / 7) % 3) as u8, shared: false, script: Some(vec![vec![Act::Intr { run: 0 }], vec![Act::Poll { run: 0 }], vec![Act::Poll { run: 0 }], vec![Act::Abort { run: 0 }]]) });
             k += stride.max(1);
+        }
+        // tight stream consumers under the budget: poll-and-drop loops in one budget window
+        for (j, api) in stream_apis().iter().enumerate() {
+            let cfg = RunCfg { api: api.to_string(), rev: j % 2 == 1, limit: None, strat: Strat::Non, incl: true, ord: j as u8 };
+            let mut script = vec![vec![Act::Poll { run: 0 }]];
+            for _ in 0..(n / 20 + 6) {
+                script.push(vec![Act::Drain { run: 0 }]);
+            }
+            script.push(vec![Act::DropStream { run: 0 }]);
+            sessions.push(Session { cfgs: vec![cfg], coop: true, auto: 0, shared: false, script: Some(script) });
         }
         let mut out = vec![];
         let mut rng = Rng(1);
